@@ -1020,6 +1020,20 @@ class State:
                     return 'FAIL the deep copy shares the attribute value %r of %r with its source' % (k, s)
         return 'ok'
 
+    def o_nodictshare(self, *hs):
+        """a complex built by decoding / copying simplex by simplex: no two of its simplices hold one dict object"""
+        seen = {}
+        for h in hs:
+            if h not in self.ex.objs:
+                continue
+            c = self.C(h)
+            for s in B.simplices(c):
+                i = id(B.getAttributes(c, s))
+                if i in seen:
+                    return 'FAIL %r of %s and %r of %s hold the same attribute dict object' % (seen[i][1], seen[i][0], s, h)
+                seen[i] = (h, s)
+        return 'ok'
+
     def o_noshare(self, *hs):
         seen = {}
         for h in hs:
@@ -1100,6 +1114,22 @@ class State:
             return 'FAIL write_json then read_json on an existing file raised %s: %r' % (type(e).__name__, e)
         finally:
             os.unlink(path)
+        cwd = os.getcwd()
+        try:
+            os.chdir('/var/tmp')
+            bare = 'sxverif-%d-%d.json' % (os.getpid(), id(c) % 100000)
+            try:
+                sfile.write_json(c, bare)
+                d2 = sfile.read_json(bare)
+            finally:
+                if os.path.exists(bare):
+                    os.unlink(bare)
+        except Exception as e:
+            return 'FAIL write_json/read_json with a bare file name raised %s: %r' % (type(e).__name__, e)
+        finally:
+            os.chdir(cwd)
+        if d2.simplices() != list(vis):
+            return 'FAIL write_json/read_json with a bare file name'
         if w3 != {'x': [1, {'y': None}], 'z': 'w'}:
             return 'FAIL read_json changed a file without an encoded complex: %r' % (w3,)
         try:
@@ -1316,6 +1346,8 @@ class State:
             return 'FAIL complexes() moved the current index'
         if len(snaps) != len(keys0):
             return 'FAIL complexes() yielded %d snapshots for %d indices' % (len(snaps), len(keys0))
+        if len({id(sn) for sn in snaps}) != len(snaps) or len({id(sn.representation()) for sn in snaps}) != len(snaps):
+            return 'FAIL complexes() yielded the same object for two indices'
         for i, sn in zip(keys0, snaps):
             if B.simplices(sn) != [s for s in ss if births[s] <= i]:
                 return 'FAIL complexes() snapshot at %r' % (i,)
@@ -1448,6 +1480,16 @@ class State:
         for s in pts:
             if len(e.positionOf(s)) != e.dimension() or len(e[s]) != e.dimension():
                 return 'FAIL the position of %r has %d coordinates in an embedding of dimension %d' % (s, len(e.positionOf(s)), e.dimension())
+        if hasattr(e, 'percount') and pts:
+            e.clearPositions()
+            for s in pts:
+                e.positionOf(s)
+                if e.percount.get(s, 0) != 1:
+                    return 'FAIL after clearPositions() the position of %r was computed %d times by one read (cached positions are cleared too)' % (s, e.percount.get(s, 0))
+        if len(pts) >= 2 and e.positionOf(pts[0]) is e.positionOf(pts[1]):
+            return 'FAIL two points share one position object'
+        if e.origin() is e.origin() or (pts and e.positionOf(pts[0]) is e.origin()):
+            return 'FAIL origin() hands out a shared list'
         hi = [s for s in c.simplices() if c.orderOf(s) > 0][:2]
         for s in hi:
             try:
